@@ -20,12 +20,12 @@ LIN_KINDS = ["lingreedy", "lints", "linucb"]
 NP_KINDS = ["none", "radius", "knn", "lsh", "clusters", "tree"]
 TREE_OK = ("eg", "ucb", "ts")
 LABELS = {
-    "int": [0, 1, 2, 3, 4, 5, 6, 7, 8],
+    "int": list(range(24)),
     # string labels of different lengths where one label is a prefix of another (fixed-width numpy string arrays!)
-    "str": ["a", "b", "ab", "c", "abc", "bb", "d", "ba", "cd"],
-    "float": [0.5, 1.5, 2.5, 3.5, 4.5, 5.5, 6.5, 7.5, 8.5],
-    "negint": [-3, 10, -7, 2, 5, -1, 8, 0, 4],
-    "strrev": ["z", "y", "x", "w", "v", "u", "t", "s", "r"],
+    "str": ["a", "b", "ab", "c", "abc", "bb", "d", "ba", "cd"] + ["arm%d" % i for i in range(10, 25)],
+    "float": [i + 0.5 for i in range(24)],
+    "negint": [-3, 10, -7, 2, 5, -1, 8, 0, 4] + [(-1) ** i * (20 + i) for i in range(15)],
+    "strrev": ["z", "y", "x", "w", "v", "u", "t", "s", "r"] + ["q%02d" % (40 - i) for i in range(15)],
 }
 
 
@@ -211,6 +211,11 @@ def cfg_sig(cfg):
 
 # ------------------------------------------------------------------------------------------------- data
 def gen_rewards(rs, n, kind):
+    if kind in ("nonneg", "dyadic") and rs.integers(8) == 0:
+        # hostile magnitudes: the same exactly summable values scaled by a large or tiny power of two
+        scale = float(pick(rs, [2.0 ** 20, 2.0 ** -20, 2.0 ** 40]))
+        return [v * scale for v in gen_rewards(rs, n, kind + "_plain")]
+    kind = kind.replace("_plain", "")
     if kind == "binary":
         return [float(v) for v in rs.integers(0, 2, n)]
     if kind == "nonneg":
